@@ -35,7 +35,7 @@
 From Coq Require Import List ZArith Bool Lia Permutation Sorted.
 From TK Require Import Knn_Spec Knn_Brute_Model Knn_Brute_Proof Knn_VpTree_Model Knn_VpTree_Proof
                        Knn_CoverSel_Model Knn_CoverSel_Proof CoverTree_Model CoverTree_Proof CoverTree_Proof_Total
-                       CoverTree_Refuted Knn_CoverQuery_Proof.
+                       CoverTree_Refuted CoverTree_Build_Model Knn_CoverQuery_Proof.
 Import ListNotations.
 Local Open Scope Z_scope.
 
@@ -380,3 +380,12 @@ Theorem ct_scale100_refuted :
     = Some ([(3, [3; 2; 1]); (1, [2; 1]); (2, [2; 1]); (0, [0; 2; 1])], true).
 Proof. exact ct_scale100_refuted_lemma. Qed.
 Print Assumptions ct_scale100_refuted.
+
+(* CoverTree_Build_Model.v models batch_create / batch_insert / split / dist_split with exact 13/10 arithmetic.
+   Nothing general is proved about it; it is compared node by node with the real tree on every run.  Two recorded
+   real trees (dumped by the harness) as an executable sanity check of that model: *)
+Example ct_build_model_examples :
+  batch_create grid9_d 100 (samples 9) = Some grid9_ctree /\
+  batch_create f25_d 100 (samples 4) = Some f25_new_tree /\
+  ct_inv_b grid9_d grid9_ctree = true /\ leaf100_b grid9_ctree = true.
+Proof. vm_compute. repeat split; reflexivity. Qed.
